@@ -191,6 +191,14 @@ FAMILIES = [
            required_labels=["drop_invalid_rows", "subsample", "outcome=SchemaErrors", "outcome=usage", "op=coerce-bad"]),
 ]
 
+from . import plx  # noqa: E402
+
+FAMILIES.append(
+    Family("polars_inputs", plx.eval_c06,
+           strategy=lambda: plx.strat_case(parsers="many", containers=("df", "df", "lf_full", "lf"), drop_rate=2, subsample_rate=2),
+           n_quick=300, n_thorough=3000, shards_quick=3, shards_thorough=12,
+           required_labels=["container=lf", "container=lf_full", "drop_invalid_rows", "subsample", "outcome=SchemaErrors"]))
+
 try:
     from . import c06_faults as _faults
 
